@@ -91,7 +91,7 @@ package abci
 //@   props C09 C16
 //@   requires mux != nil && mux.state != nil && ctx != nil
 //@   precall cbor\.Unmarshal$ :: params != nil && (params.MaxTxSize == 0 || uint64(len(rawTx)) <= params.MaxTxSize)
-//@   ensures err == nil ==> r0 != nil && r1 != nil && transaction.TxSigOK(r1) && len(r0.Method) > 0
+//@   ensures err == nil ==> result0 != nil && result1 != nil && transaction.TxSigOK(result1) && len(result0.Method) > 0
 //@   ensures err == nil ==> old(mux.state.blockParams) != nil && (old(mux.state.blockParams.MaxTxSize) == 0 || uint64(len(rawTx)) <= old(mux.state.blockParams.MaxTxSize))
 //@   note nothing is decoded before the size limit is checked; a transaction is returned only if its envelope signature verified under the transaction context and its method is non-empty
 
